@@ -118,8 +118,10 @@ Print Assumptions c14_eof_only_when_nothing_readable.
 
 (* ---------------------------------------------------------------- (d) fresh counters, fresh incarnation *)
 
+(* (the stream that sent the request has left the open state: Close precedes the request) *)
 Theorem c14_counters_fresh : forall sid e rsn q,
   rs_req_get (rs_reconfigs e) rsn = Some q -> rs_mem sid (rs_q_ids q) = true -> rs_present e = true ->
+  rs_state (rs_obj e) <> rs_st_open ->
   let e' := fst (rs_recv_response sid e rsn c_reconfigResultSuccessPerformed) in
   rs_ssn (rs_obj e') = 0 /\ rs_omid (rs_obj e') = 0 /\ rs_umid (rs_obj e') = 0 /\
   rs_state (rs_obj e') = rs_state (rs_obj e) /\ rs_eof (rs_obj e') = rs_eof (rs_obj e) /\ rs_present e' = true.
@@ -162,9 +164,10 @@ Theorem c14_retransmitted_request_stream_gone : forall sid e q e' r,
 Proof. exact rs_request_absent_harmless. Qed.
 Print Assumptions c14_retransmitted_request_stream_gone.
 
-(* RECONFIG parameters that do not name the identifier never touch its object: under the exclusion hypothesis
-   "no request / response of an earlier incarnation of the identifier is delivered after it was reopened"
-   (precondition of TestVerifSimResetQuiet) the new incarnation is only reset by its own writer's request *)
+(* RECONFIG parameters that do not name the identifier never touch its object.  (Before fd7385c / a186bb2 the
+   statements about a reopened identifier needed the exclusion hypothesis "no request / response of an earlier
+   incarnation is delivered after the reopen"; the theorems c14_stale_request_harmless and c14_late_response_harmless
+   below remove it.  TestVerifSimResetQuiet still runs under that precondition, TestVerifSimReset without it.) *)
 Theorem c14_request_frame : forall sid e q e' r,
   rs_mem sid (rs_q_ids q) = false -> rs_recv_request sid e q = Some (e', r) ->
   rs_obj e' = rs_obj e /\ rs_present e' = rs_present e /\ rs_r_hit r = false.
@@ -178,27 +181,64 @@ Theorem c14_response_frame : forall sid e rsn result,
 Proof. exact rs_response_frame. Qed.
 Print Assumptions c14_response_frame.
 
-(* FULL STATEMENT REFUTED (finding K1, key sim-C14-stale-request-resets-new-incarnation): after both directions
-   were reset and the identifier reopened, a retransmission (or network duplicate) of the old request is applied
-   to the new incarnation: the reader gets EOF and the stream is unregistered although its writer never closed
-   it.  The receiver keeps no record of request sequence numbers already performed (RFC 6525 5.2.1). *)
-Theorem c14_stale_request_refuted : exists s log,
-  rs_sys_run 1 rs_sys0 rs_stale_request_history [] = Some (s, log) /\
-  log = [RsMsg 0; RsEOF; RsMsg 0; RsEOF] /\
-  rs_gen (rs_obj (rs_a s)) = 2 /\ rs_state (rs_obj (rs_a s)) = rs_st_open /\
-  rs_gen (rs_obj (rs_b s)) = 2 /\ rs_eof (rs_obj (rs_b s)) = true /\ rs_present (rs_b s) = false.
-Proof. exact rs_stale_request_witness. Qed.
-Print Assumptions c14_stale_request_refuted.
+(* D24 (repaired by /repo fd7385c; the model follows: rs_done = a.performedResetRSN[sid]).  A request whose sequence
+   number is not newer than the one already performed for the identifier - a retransmission after a lost response, a
+   network duplicate - is answered (SuccessPerformed when due) but touches neither the stream that lives under the
+   identifier now, nor its registration, nor the record. *)
+Theorem c14_stale_request_harmless : forall sid e q e' r p,
+  rs_done e = Some p -> sna32LTE (rs_q_rsn q) p = true -> rs_recv_request sid e q = Some (e', r) ->
+  rs_obj e' = rs_obj e /\ rs_present e' = rs_present e /\ rs_done e' = rs_done e /\ rs_r_hit r = false /\
+  (sna32LTE (rs_q_last q) (rs_cum e) = true -> rs_r_res r = c_reconfigResultSuccessPerformed).
+Proof. exact rs_request_already_performed. Qed.
+Print Assumptions c14_stale_request_harmless.
 
-(* FULL STATEMENT REFUTED (finding K2, key sim-C14-late-response-rewinds-open-stream): a response that arrives after
-   the identifier was reopened sets the SSN / MID counters of the NEW incarnation back to 0; the next message
-   reuses a sequence number and is discarded by the receiver (acknowledged, never delivered). *)
-Theorem c14_late_response_refuted : exists s log,
+(* ... the request of the next incarnation (newer sequence number) is performed and recorded, also when no stream
+   is registered (the vacuous reset must not hit a stream opened later) *)
+Theorem c14_newer_request_performed : forall sid e q e' r,
+  rs_already e q = false -> rs_mem sid (rs_q_ids q) = true -> sna32LTE (rs_q_last q) (rs_cum e) = true ->
+  rs_recv_request sid e q = Some (e', r) ->
+  rs_done e' = Some (rs_q_rsn q) /\ rs_present e' = false /\ rs_r_hit r = rs_present e /\
+  rs_r_res r = c_reconfigResultSuccessPerformed.
+Proof. exact rs_request_newer_performed. Qed.
+Print Assumptions c14_newer_request_performed.
+
+(* ... and whichever handler runs, the record changes only by performing a request, to that request's number *)
+Theorem c14_performed_record_changes_only_by_performing : forall sid e ev e' out,
+  rs_ep_step sid e ev = Some (e', out) -> rs_done_ok e e' (rs_o_resps out).
+Proof. exact rs_step_done. Qed.
+Print Assumptions c14_performed_record_changes_only_by_performing.
+
+Theorem c14_request_frame_record : forall sid e q e' r,
+  rs_mem sid (rs_q_ids q) = false -> rs_recv_request sid e q = Some (e', r) -> rs_done e' = rs_done e.
+Proof. exact rs_request_frame_done. Qed.
+Print Assumptions c14_request_frame_record.
+
+(* D25 (repaired by /repo a186bb2).  Whatever response arrives - late, duplicated, for any request - an open stream
+   keeps its SSN / MID counters and its registration: the stream that sent a reset request has left the open state, an
+   open stream under the identifier is a later incarnation. *)
+Theorem c14_late_response_harmless : forall sid e rsn result, rs_state (rs_obj e) = rs_st_open ->
+  rs_obj (fst (rs_recv_response sid e rsn result)) = rs_obj e /\
+  rs_present (fst (rs_recv_response sid e rsn result)) = rs_present e.
+Proof. exact rs_response_open_untouched. Qed.
+Print Assumptions c14_late_response_harmless.
+
+(* the two histories that refuted the property before the repairs (and were replayed on the implementation:
+   TestVerifScenResetWitness) are harmless now: the reader of the new incarnation keeps reading, no EOF, no reused SSN *)
+Example c14_stale_request_history_now_harmless : exists s log,
+  rs_sys_run 1 rs_sys0 (rs_stale_request_history ++
+     [RsEDeliver 7; RsEWrite true 5; RsEGather true [RsMine 1 false] []; RsEDeliver 8; RsERead false]) [] = Some (s, log) /\
+  log = [RsMsg 0; RsEOF; RsMsg 0; RsWait; RsMsg 1] /\
+  rs_gen (rs_obj (rs_a s)) = 2 /\ rs_state (rs_obj (rs_a s)) = rs_st_open /\ rs_ssn (rs_obj (rs_a s)) = 2 /\
+  rs_gen (rs_obj (rs_b s)) = 2 /\ rs_eof (rs_obj (rs_b s)) = false /\ rs_present (rs_b s) = true /\
+  rs_done (rs_b s) = Some 1000.
+Proof. exact rs_stale_request_now_harmless. Qed.
+
+Example c14_late_response_history_now_harmless : exists s log,
   rs_sys_run 1 rs_sys0 rs_late_response_history [] = Some (s, log) /\
-  log = [RsEOF; RsMsg 0; RsMsg 1; RsWait] /\
-  rs_gen (rs_obj (rs_a s)) = 2 /\ rs_ssn (rs_obj (rs_a s)) = 1 /\ rs_rnext (rs_obj (rs_b s)) = 2 /\ rs_rbuf (rs_obj (rs_b s)) = [].
-Proof. exact rs_late_response_witness. Qed.
-Print Assumptions c14_late_response_refuted.
+  log = [RsEOF; RsMsg 0; RsMsg 1; RsMsg 2] /\
+  rs_gen (rs_obj (rs_a s)) = 2 /\ rs_ssn (rs_obj (rs_a s)) = 3 /\ rs_reconfigs (rs_a s) = [] /\
+  rs_rnext (rs_obj (rs_b s)) = 3 /\ rs_rbuf (rs_obj (rs_b s)) = [].
+Proof. exact rs_late_response_now_harmless. Qed.
 
 (* ---------------------------------------------------------------- (e) retransmission and duplicates *)
 
